@@ -27,7 +27,8 @@ SPEC = {
              'evaluator with a node/attribute outside the documented language; distinct by string'),
     'exhaustive': {'quick': False, 'thorough': False},
     'required_counters': ['audit_windows', 'call_events_seen', 'subexpression_values_inspected', 'immutability_checks', 'file_context_runs',
-                          'views_context_runs', 'attr_matrix_strings', 'node_class_strings', 'matched_transaction_immutability_checks'],
+                          'views_context_runs', 'attr_matrix_strings', 'node_class_strings', 'matched_transaction_immutability_checks',
+                          'scope_isolation_probes'],
     'assumptions': ['Ellipsis, bytes and complex literals are data the user wrote; generator objects are legitimate intermediate values',
                     'RecursionError / MemoryError on pathologically deep input count as rejected',
                     'a marker such as "<class \'" inside a result string is only flagged when it occurs nowhere in the expression text or input data'],
@@ -35,7 +36,7 @@ SPEC = {
 
 ROWS = {'rows': [{'amt': 12.0, 'item': 'NETFLIX', 'qty': 1, 'when': datetime.date(2025, 1, 2)}, {'amt': 5, 'item': 'star', 'qty': 0, 'when': datetime.date(2025, 1, 3)}],
         'orders': [{'amt': 100.0, 'item': 'COSTCO', 'qty': 2, '__class__': 'x', '__globals__': 'g', 'format': '{0.__class__}'}]}
-VARS = {'big': 500, 'label': 'Amex', 'fmt': '{0.__class__.__mro__}', 'dd': datetime.date(2025, 1, 2)}
+VARS = {'big': 500, 'label': 'Amex', 'fmt': '{0.__class__.__mro__}', 'dd': datetime.date(2025, 1, 2), 'lst': [1, 2]}
 TXN = {'description': 'NETFLIX.COM {0.__class__} %s', 'amount': 12.5, 'date': datetime.date(2025, 1, 15),
        'field': {'memo': '__import__("os")', 'code': '{0.__globals__}', '__class__': 'fieldcls'}, 'source': 'Amex', 'location': 'WA'}
 
@@ -477,6 +478,18 @@ ExpressionError
 TransactionEvaluator
 date_type
 date_type.today()
+sum([[x for x in rows] for r in rows], orders)
+sum(([x.item for x in rows] for r in rows), rows)
+sum([[x.amt for x in rows] for r in rows], lst)
+sum([[x.amt for x in rows] for r in rows], (keep := lst))
+sum([field.memo for r in rows], "")
+max([r for r in rows], rows)
+min(rows, orders)
+next((rows for r in rows), orders)
+(hit := [r.item for r in rows]) and len(hit) > 0
+(amount := 0) == 0
+any((seen := r.item) == "star" for r in rows)
+[(last := r.amt) for r in orders]
 '''.strip().splitlines()
 
 VIEW_PAYLOADS = r'''
@@ -679,6 +692,35 @@ def run_bare(rec, ep, s, nodes):
                         immut=[txn, rows, vs])
     if tree is not None and ast.dump(ep.parse_expression(s)) != tree_dump:
         rec.violation('evaluation-mutates-parsed-tree', f'{s!r}: cached AST changed', {'kind': 's', 'where': 'bare', 's': s})
+    # names bound by := or as loop variables are local to ONE evaluation: a later, separate evaluation must not be able to read them
+    if tree is not None:
+        bound = set()
+        for n in ast.walk(tree):
+            if isinstance(n, ast.NamedExpr) and isinstance(n.target, ast.Name):
+                bound.add(n.target.id.lower())
+            elif isinstance(n, ast.comprehension) and isinstance(n.target, ast.Name):
+                bound.add(n.target.id.lower())
+        known = {'description', 'amount', 'date', 'month', 'year', 'day', 'weekday', 'source', 'true', 'false', 'txn', 'field', 'location'} | \
+            {k.lower() for k in VARS} | {k.lower() for k in ROWS}
+        for name in sorted(bound - known)[:3]:
+            if not name.isidentifier():
+                continue
+            rec.count('scope_isolation_probes')
+            try:
+                v = ep.evaluate_transaction(name, copy.deepcopy(TXN), dict(VARS), copy.deepcopy(ROWS))
+                rec.violation('binding-leaks-into-later-evaluation', f'after evaluating {s!r}, the separate expression {name!r} evaluates to {v!r} instead of failing '
+                              f'as an unknown name', {'kind': 's', 'where': 'bare', 's': s})
+            except Exception:
+                pass
+        # ... nor may a binding of a built-in name survive the evaluation that made it
+        if bound & {'amount', 'description', 'month'}:
+            rec.count('scope_isolation_probes')
+            try:
+                v = ep.evaluate_transaction('amount', copy.deepcopy(TXN), dict(VARS), copy.deepcopy(ROWS))
+                if v != TXN['amount']:
+                    rec.violation('binding-leaks-into-later-evaluation', f'after {s!r}, a separate evaluation of "amount" gives {v!r}', {'kind': 's', 'where': 'bare', 's': s})
+            except Exception:
+                pass
     # no-fields / empty-rows context
     t2 = {'description': 'x', 'amount': 0}
     plain_outcome(rec, 'evaluate_transaction(minimal)', s, lambda: ep.evaluate_transaction(s, t2), hay(s), ep, nodes)
